@@ -321,7 +321,11 @@ func randomStream(g *Gen, c readCfg) []byte {
 					dict = dict[len(dict)-(1<<c.dpsBits):]
 				}
 			}
-			wire = deflateRaw(payload, dict, 1+r.Intn(9))
+			if r.Intn(4) == 0 {
+				wire = deflateFinal(payload, dict, 1+r.Intn(9)) // a stream ending in a final block
+			} else {
+				wire = deflateRaw(payload, dict, 1+r.Intn(9))
+			}
 			if c.dpsBits >= 0 {
 				hist = append(hist, payload...)
 			}
@@ -430,6 +434,11 @@ func genReadLimits(g *Gen, emit func(readCfg, []byte)) {
 					s = append(s, frameSpec{fin: true, opcode: 0, masked: server, key: key, payload: comp[len(comp)/2:]}.bytes()...)
 					emit(cc, s)
 				}
+				// compressed, ending in a BFINAL=1 block (the inflater hands out its last bytes together with EOF):
+				// incompressible content so that the final chunk is what crosses the limit
+				fin := g.R.Bytes(size)
+				emit(cc, frameSpec{fin: true, rsv1: true, opcode: 2, masked: server, key: key, payload: deflateFinal(fin, nil, 1)}.bytes())
+				emit(cc, frameSpec{fin: true, rsv1: true, opcode: 2, masked: server, key: key, payload: deflateFinal(payload, nil, 9)}.bytes())
 				// compressed, incompressible: wire size may exceed the limit while the payload does not
 				rnd := g.R.Bytes(size)
 				emit(cc, frameSpec{fin: true, rsv1: true, opcode: 2, masked: server, key: key, payload: deflateRaw(rnd, nil, 1)}.bytes())
